@@ -109,6 +109,10 @@ var vmHandPrograms = []string{
 	"counter c by k\n/^(\\w+)$/ {\nc[$1]++\n}\n/^del (\\w+)/ {\ndel c[$1]\n}\n",
 	"counter c by k\n/^(\\w+)$/ {\nc[$1]++\n}\n/^exp (\\w+)/ {\ndel c[$1] after 1h\n}\n",
 	"gauge g by a, b\n/^(\\w+) (\\w+)$/ {\ng[$1][$2] = 1\n}\n/^del (\\w+) (\\w+)/ {\ndel g[$1][$2] after 30s\n}\n",
+	// delayed deletes of every magnitude: sub-second, fractional, zero, very long
+	"counter c by k\n/^(\\w+)$/ {\nc[$1]++\n}\n/^exp (\\w+)/ {\ndel c[$1] after 500ms\n}\n",
+	"counter c by k\n/^(\\w+)$/ {\nc[$1]++\n}\n/^exp (\\w+)/ {\ndel c[$1] after 1ms\n}\n/^del (\\w+)/ {\ndel c[$1] after 1500ms\n}\n",
+	"counter c by k\n/^(\\w+)$/ {\nc[$1]++\n}\n/^exp (\\w+)/ {\ndel c[$1] after 0.25s\n}\n/^del (\\w+)/ {\ndel c[$1] after 2562047h\n}\n",
 	// builtins
 	"gauge g\n/^(\\S+)/ {\ng = len($1)\n}\n",
 	"text t\n/^(.+)$/ {\nt = tolower($1)\n}\n",
@@ -401,7 +405,7 @@ func (g *pgen) action(caps []capRef) string {
 			}
 		case 7:
 			if len(g.dimInt) > 0 {
-				return "del " + g.r.pick(g.dimInt) + "[" + g.strExpr(caps, 0) + "]" + g.r.pick([]string{"", " after 1h", " after 30s"})
+				return "del " + g.r.pick(g.dimInt) + "[" + g.strExpr(caps, 0) + "]" + g.r.pick([]string{"", " after 1h", " after 30s", " after 500ms", " after 1ms", " after 1h0.5s"})
 			}
 		case 8:
 			if len(g.hists) > 0 {
